@@ -51,6 +51,8 @@ pub struct Scenario {
     /// for the C07 oracle: what the authoritative data says (`None` = not a universe scenario)
     pub expect: Option<String>,
     pub family: &'static str,
+    /// seconds the clock is advanced between loading `cache_rrs` and the resolution (no prune in between)
+    pub clock_advance_s: u64,
 }
 
 pub fn addr_text(a: &IpAddr) -> String {
@@ -135,7 +137,17 @@ pub fn run_scenario_clock(sc: &Scenario, out: &mut Out, cmd: &str, real_clock: b
     let cache_size: usize = if sc.question.name.labels.len() % 3 == 0 && !sc.script.is_empty() { 2 } else { 512 };
     let cache = SharedCache::with_desired_size(cache_size);
     verif::set_clock_nanos(T0);
-    cache.insert_all(&sc.cache_rrs);
+    {
+        // under the watchdog as well: pre-loading the cache is a call into the real code
+        let (c2, rrs) = (cache.clone(), sc.cache_rrs.clone());
+        if let crate::watch::Outcome::Hang = crate::watch::run(20, move || c2.insert_all(&rrs)) {
+            out.case(&[cmd, sc.family, &mode_text(&sc.mode), "-", "-", "-", &c::question(&sc.question), "-"], "hang");
+            return;
+        }
+    }
+    if sc.clock_advance_s > 0 {
+        verif::set_clock_nanos(T0 + sc.clock_advance_s * 1_000_000_000);
+    }
     let log: Arc<Mutex<Vec<String>>> = Arc::new(Mutex::new(Vec::new()));
     let script: HashMap<(IpAddr, bool, DomainName, u16), (u64, Reply)> = sc
         .script
@@ -214,7 +226,12 @@ pub fn run_scenario_clock(sc: &Scenario, out: &mut Out, cmd: &str, real_clock: b
             sc.family,
             &mode_text(&sc.mode),
             &zones,
-            &(if cache_size == 512 { c::rrs(&sc.cache_rrs) } else { format!("S{cache_size}:{}", c::rrs(&sc.cache_rrs)) }),
+            &format!(
+                "{}{}{}",
+                if cache_size == 512 { String::new() } else { format!("S{cache_size}:") },
+                if sc.clock_advance_s == 0 { String::new() } else { format!("T{}:", sc.clock_advance_s) },
+                c::rrs(&sc.cache_rrs)
+            ),
             &script,
             &c::question(&sc.question),
             sc.expect.as_deref().unwrap_or("-"),
@@ -331,7 +348,9 @@ pub fn local_scenario(r: &mut Rng) -> Scenario {
         _ => IpAddr::V4(Ipv4Addr::new(10, 9, 9, 1)),
     };
     script.push(Entry { addr, tcp: false, qname: qname.clone(), qtype: qt, delay_ms: 3, reply: Reply::Msg { m: reply, same_id: true } });
-    Scenario { mode: m, zone_specs: specs, zones, cache_rrs, script, question, expect: None, family: "local" }
+    // sometimes the question comes after cached records have run out (and before any prune)
+    let clock_advance_s = if r.chance(1, 4) { *r.pick(&[1u64, 31, 301]) } else { 0 };
+    Scenario { mode: m, zone_specs: specs, zones, cache_rrs, script, question, expect: None, family: "local", clock_advance_s }
 }
 
 /// family "chain": alias chains of length 0..40 with links in zones, cache or upstream (C10)
@@ -399,7 +418,8 @@ pub fn chain_scenario(r: &mut Rng) -> Scenario {
         reply.answers.push(rr(&names[len], data_for(r, u16::from(question.qtype)), 60));
         script.push(Entry { addr: fwd.ip(), tcp: false, qname: names[len].clone(), qtype: u16::from(question.qtype), delay_ms: 3, reply: Reply::Msg { m: reply, same_id: true } });
     }
-    Scenario { mode: m, zone_specs: vec![spec], zones, cache_rrs, script, question, expect: None, family: "chain" }
+    let clock_advance_s = if r.chance(1, 5) { *r.pick(&[299u64, 301]) } else { 0 };
+    Scenario { mode: m, zone_specs: vec![spec], zones, cache_rrs, script, question, expect: None, family: "chain", clock_advance_s }
 }
 
 /// an authoritative zone with an alias whose target lies beneath one of its own delegations: the zone
@@ -442,7 +462,7 @@ fn alias_into_delegation_scenario(r: &mut Rng) -> Scenario {
         script.push(Entry { addr: IpAddr::V4(addr), tcp: false, qname: qn.clone(), qtype: qt, delay_ms: 3, reply: Reply::Msg { m, same_id: true } });
     }
     let mode = if r.chance(1, 3) { Mode::Auth } else { Mode::Rec(ProtocolMode::OnlyV4, 53) };
-    Scenario { mode, zone_specs: vec![spec, hspec], zones, cache_rrs: Vec::new(), script, question, expect: None, family: "local" }
+    Scenario { mode, zone_specs: vec![spec, hspec], zones, cache_rrs: Vec::new(), script, question, expect: None, family: "local", clock_advance_s: 0 }
 }
 
 /// the shape of open finding F11 (C01-K1), exhibited on every run: a forwarded question whose upstream
@@ -466,7 +486,7 @@ fn f11_scenario(r: &mut Rng) -> Scenario {
     reply.answers.push(rr(&question.name, RecordTypeWithData::CNAME { cname: host.clone() }, 60));
     reply.answers.push(rr(&host, a4(66), 60));
     let script = vec![Entry { addr: fwd.ip(), tcp: false, qname: question.name.clone(), qtype: 1, delay_ms: 3, reply: Reply::Msg { m: reply, same_id: true } }];
-    Scenario { mode: Mode::Fwd(fwd), zone_specs: vec![spec], zones, cache_rrs: Vec::new(), script, question, expect: None, family: "chain" }
+    Scenario { mode: Mode::Fwd(fwd), zone_specs: vec![spec], zones, cache_rrs: Vec::new(), script, question, expect: None, family: "chain", clock_advance_s: 0 }
 }
 
 // ---- universe: a delegation tree served by scripted authoritative servers ---------------------
@@ -486,6 +506,9 @@ struct Universe {
     glue_ttl0: bool,
     /// answers are truncated over UDP and complete only over TCP
     tc_over_udp: bool,
+    /// referrals given by the root and the TLD servers carry glue of one family only for dual-stack
+    /// hosts (Some(true) = IPv4 only); deeper servers list every address
+    upper_glue_v4_only: Option<bool>,
 }
 
 impl Universe {
@@ -517,6 +540,11 @@ impl Universe {
                     for (host, addrs) in &cz.servers {
                         if host.is_subdomain_of(&z.apex) {
                             for a in addrs {
+                                if let (Some(v4), true, true) = (self.upper_glue_v4_only, z.apex.labels.len() <= 2, addrs.len() > 1) {
+                                    if a.is_ipv4() != v4 {
+                                        continue;
+                                    }
+                                }
                                 m.additional.push(rr(
                                     host,
                                     match a {
@@ -568,6 +596,11 @@ impl Universe {
                     for (host, addrs) in &cz.servers {
                         if host.is_subdomain_of(&z.apex) {
                             for a in addrs {
+                                if let (Some(v4), true, true) = (self.upper_glue_v4_only, z.apex.labels.len() <= 2, addrs.len() > 1) {
+                                    if a.is_ipv4() != v4 {
+                                        continue;
+                                    }
+                                }
                                 m.additional.push(rr(
                                     host,
                                     match a {
@@ -649,6 +682,7 @@ fn gen_universe(r: &mut Rng, single_ns: bool, dual: bool) -> Universe {
         }
     }
     // nameservers
+    let hoster = dual && r.chance(1, 3);
     let mut zones: Vec<UZone> = Vec::new();
     for (zi, apex) in apexes.iter().enumerate() {
         let k = if single_ns { 1 } else { r.range(1, 3) };
@@ -679,6 +713,21 @@ fn gen_universe(r: &mut Rng, single_ns: bool, dual: bool) -> Universe {
             };
             servers.push((host, addrs));
         }
+        // a sub-zone is often served by the very servers of its parent zone: the same host name is then
+        // needed for two delegations of one resolution
+        let parent_idx = (0..zones.len())
+            .filter(|&p| !zones[p].apex.is_root() && apex.is_subdomain_of(&zones[p].apex))
+            .max_by_key(|&p| zones[p].apex.labels.len());
+        let servers = match parent_idx {
+            Some(p) if apex.labels.len() >= 4 && r.chance(1, 3) => zones[p].servers.clone(),
+            _ => servers,
+        };
+        // a hoster: the second-level zones of one TLD all on the servers of the first of them
+        let first_sld = zones.iter().position(|z| z.apex.labels.len() == 3 && z.apex.labels[1..] == apex.labels[1..]);
+        let servers = match first_sld {
+            Some(p) if hoster && apex.labels.len() == 3 => zones[p].servers.clone(),
+            _ => servers,
+        };
         let s = SOA { mname: servers[0].0.clone(), rname: nm("admin."), serial: 1, refresh: 2, retry: 3, expire: 4, minimum: 60 };
         zones.push(UZone { apex: apex.clone(), zone: Zone::new(apex.clone(), Some(s)), servers });
     }
@@ -777,16 +826,31 @@ fn gen_universe(r: &mut Rng, single_ns: bool, dual: bool) -> Universe {
             }
         }
     }
-    let glue_ttl0 = single_ns && !dual && r.chance(1, 40);
-    Universe { zones, ns_at_cut_is_referral: r.chance(1, 2), glue_ttl0, tc_over_udp: r.chance(1, 8) }
+    let glue_ttl0 = single_ns && r.chance(1, 40);
+    let upper_glue_v4_only = if dual && r.chance(1, 2) { Some(r.chance(1, 2)) } else { None };
+    Universe { zones, ns_at_cut_is_referral: r.chance(1, 2), glue_ttl0, tc_over_udp: r.chance(1, 8), upper_glue_v4_only }
 }
 
 fn universe_script(u: &Universe, questions: &[Question]) -> Vec<Entry> {
     let mut script = Vec::new();
-    for z in &u.zones {
-        for (_, addrs) in &z.servers {
+    let mut seen_addrs: Vec<IpAddr> = Vec::new();
+    for z0 in &u.zones {
+        for (_, addrs) in &z0.servers {
             for a in addrs {
+                // one server may serve several zones (a sub-zone on its parent's servers): it answers from
+                // the deepest of its zones that encloses the question name, like a real server
+                if seen_addrs.contains(a) {
+                    continue;
+                }
+                seen_addrs.push(*a);
+                let served: Vec<&UZone> = u.zones.iter().filter(|z| z.servers.iter().any(|(_, xs)| xs.contains(a))).collect();
                 for q in questions {
+                    let z = served
+                        .iter()
+                        .filter(|z| q.name.is_subdomain_of(&z.apex))
+                        .max_by_key(|z| z.apex.labels.len())
+                        .copied()
+                        .unwrap_or(z0);
                     let m = u.serve(z, q);
                     if u.tc_over_udp && !m.answers.is_empty() {
                         // "does not fit a datagram": the UDP reply is truncated (TC, no records), the answer
@@ -951,6 +1015,28 @@ pub fn universe_scenario(r: &mut Rng, single_ns: bool, dual: bool) -> Scenario {
             cache_rrs.clear();
         }
     }
+    // prefer modes: the resolver starts out knowing the question's zone and only ONE address of its
+    // (dual-stack) nameserver, of the family it does not prefer; the other one is learnt from a later
+    // referral - from then on that one has to be used
+    if dual && cache_rrs.is_empty() && matches!(pm, ProtocolMode::PreferV4 | ProtocolMode::PreferV6) && r.chance(1, 3) {
+        let z = u.zone_for(&question.name);
+        if !z.apex.is_root() {
+            if let Some((host, addrs)) = z.servers.iter().find(|(_, a)| a.len() > 1) {
+                let want_v4 = pm == ProtocolMode::PreferV6;
+                if let Some(a) = addrs.iter().find(|a| a.is_ipv4() == want_v4) {
+                    cache_rrs.push(rr(&z.apex, RecordTypeWithData::NS { nsdname: host.clone() }, 300));
+                    cache_rrs.push(rr(
+                        host,
+                        match a {
+                            IpAddr::V4(x) => RecordTypeWithData::A { address: *x },
+                            IpAddr::V6(x) => RecordTypeWithData::AAAA { address: *x },
+                        },
+                        300,
+                    ));
+                }
+            }
+        }
+    }
     let expect = expect.unwrap_or_else(|| "-".to_string());
     let script = if expect == "-" { universe_script(&u, &relevant_questions(&u, &question)) } else { script };
     Scenario {
@@ -962,6 +1048,7 @@ pub fn universe_scenario(r: &mut Rng, single_ns: bool, dual: bool) -> Scenario {
         question,
         expect: if expect == "-" { None } else { Some(expect) },
         family: if single_ns { if dual { "universe1-dual" } else { "universe1" } } else { "universeN" },
+        clock_advance_s: 0,
     }
 }
 
@@ -1018,6 +1105,73 @@ pub fn mutual_scenario(k: usize) -> Scenario {
         question,
         expect: None,
         family: "mutual",
+        clock_advance_s: 0,
+    }
+}
+
+/// A hoster: two sibling zones on ONE dual-stack nameserver, an alias from one into the other, and a
+/// resolver that starts out knowing only the address of the family it does not prefer (the other one
+/// arrives as glue with the referral to the second zone).  The same nameserver is needed twice in one
+/// resolution: the second time at the preferred family (C18), and the whole chain comes back (C07, C10).
+pub fn hoster_scenario(r: &mut Rng) -> Scenario {
+    let (root_ip, com_ip, n4, n6) = (ip4(r), ip4(r), ip4(r), ip6(r));
+    let host = nm("ns.z0.com.");
+    let mk = |apex: &str, servers: Vec<(DomainName, Vec<IpAddr>)>| -> UZone {
+        let a = nm(apex);
+        let s = SOA { mname: servers[0].0.clone(), rname: nm("admin."), serial: 1, refresh: 2, retry: 3, expire: 4, minimum: 60 };
+        UZone { apex: a.clone(), zone: Zone::new(a, Some(s)), servers }
+    };
+    let mut zones = vec![
+        mk(".", vec![(nm("r0.root-servers.net."), vec![root_ip])]),
+        mk("com.", vec![(nm("ns.com."), vec![com_ip])]),
+        mk("z0.com.", vec![(host.clone(), vec![n4, n6])]),
+        mk("z1.com.", vec![(host.clone(), vec![n4, n6])]),
+    ];
+    let addr_data = |a: &IpAddr| match a {
+        IpAddr::V4(x) => RecordTypeWithData::A { address: *x },
+        IpAddr::V6(x) => RecordTypeWithData::AAAA { address: *x },
+    };
+    // NS sets (apex + parent) and address records
+    for (child, parent) in [(1usize, 0usize), (2, 1), (3, 1)] {
+        let (apex, servers) = (zones[child].apex.clone(), zones[child].servers.clone());
+        for (h, _) in &servers {
+            let ns = RecordTypeWithData::NS { nsdname: h.clone() };
+            zones[child].zone.insert(&apex, ns.clone(), 300);
+            zones[parent].zone.insert(&apex, ns, 300);
+        }
+    }
+    let root = DomainName::root_domain();
+    let rh = zones[0].servers[0].0.clone();
+    zones[0].zone.insert(&root, RecordTypeWithData::NS { nsdname: rh }, 300);
+    zones[1].zone.insert(&nm("ns.com."), addr_data(&com_ip), 300);
+    for a in [n4, n6] {
+        zones[2].zone.insert(&host, addr_data(&a), 300);
+    }
+    let alias = nm("w.z0.com.");
+    let target = nm("h0.z1.com.");
+    zones[2].zone.insert(&alias, RecordTypeWithData::CNAME { cname: target.clone() }, 300);
+    zones[3].zone.insert(&target, a4(77), 300);
+    let u = Universe { zones, ns_at_cut_is_referral: true, glue_ttl0: false, tc_over_udp: false, upper_glue_v4_only: None };
+    let question = Question { name: alias, qtype: QueryType::from(1u16), qclass: QueryClass::Record(RecordClass::IN) };
+    let qs = relevant_questions(&u, &question);
+    let script = universe_script(&u, &qs);
+    let (hz, hspec) = hints_zone(&u);
+    let mut zs = Zones::new();
+    zs.insert_merge(hz);
+    let pm = *r.pick(&[ProtocolMode::PreferV4, ProtocolMode::PreferV6]);
+    let known = if pm == ProtocolMode::PreferV6 { n4 } else { n6 };
+    let cache_rrs = vec![rr(&nm("z0.com."), RecordTypeWithData::NS { nsdname: host.clone() }, 300), rr(&host, addr_data(&known), 300)];
+    let expect = Some(u.expected(&question));
+    Scenario {
+        mode: Mode::Rec(pm, *r.pick(&[53u16, 5300])),
+        zone_specs: vec![hspec],
+        zones: zs,
+        cache_rrs,
+        script,
+        question,
+        expect,
+        family: "universe1-dual",
+        clock_advance_s: 0,
     }
 }
 
@@ -1037,6 +1191,35 @@ pub fn fault_scenario(r: &mut Rng) -> Scenario {
             Entry { addr: fwd.ip(), tcp: false, qname: q.name.clone(), qtype: u16::from(q.qtype), delay_ms: 11, reply: Reply::Msg { m: m.clone(), same_id: true } },
             Entry { addr: fwd.ip(), tcp: true, qname: q.name.clone(), qtype: u16::from(q.qtype), delay_ms: 13, reply: Reply::Msg { m, same_id: true } },
         ];
+    }
+    if r.chance(1, 8) && sc.question.name.labels.len() >= 3 {
+        // the authoritative servers of the question name answer it with an UPWARD referral: their TLD,
+        // "served" by a stranger (with glue) who has an answer ready for whoever follows it.  Not deeper
+        // than the delegation in use, so it must be ignored.
+        let q = sc.question.clone();
+        let tld = DomainName::from_labels(q.name.labels[q.name.labels.len() - 2..].to_vec()).unwrap();
+        let evil_host = nm("ns.evil.test.");
+        let evil_ip = Ipv4Addr::new(203, 0, 113, 66);
+        let mut hit = false;
+        for e in sc.script.iter_mut() {
+            if e.qname == q.name && e.qtype == u16::from(q.qtype) && !e.tcp {
+                if let Reply::Msg { m, .. } = &mut e.reply {
+                    if m.header.is_authoritative {
+                        m.header.is_authoritative = false;
+                        m.answers.clear();
+                        m.authority = vec![rr(&tld, RecordTypeWithData::NS { nsdname: evil_host.clone() }, 300)];
+                        m.additional = vec![rr(&evil_host, RecordTypeWithData::A { address: evil_ip }, 300)];
+                        hit = true;
+                    }
+                }
+            }
+        }
+        if hit {
+            let mut poisoned = reply_to(&q);
+            poisoned.header.is_authoritative = true;
+            poisoned.answers.push(rr(&q.name, data_for(r, u16::from(q.qtype)), 300));
+            sc.script.push(Entry { addr: IpAddr::V4(evil_ip), tcp: false, qname: q.name.clone(), qtype: u16::from(q.qtype), delay_ms: 5, reply: Reply::Msg { m: poisoned, same_id: true } });
+        }
     }
     let nfaults = r.range(1, 4);
     for _ in 0..nfaults {
@@ -1105,6 +1288,40 @@ pub fn fault_scenario(r: &mut Rng) -> Scenario {
                     }
                 }
             }
+            9 if r.chance(1, 3) => {
+                // the answer is truncated over UDP AND still flagged truncated over TCP: both are discarded
+                if let Reply::Msg { m, .. } = &mut e.reply {
+                    m.header.is_truncated = true;
+                }
+                let mut t = e.clone();
+                t.tcp = true;
+                t.delay_ms = 19;
+                sc.script.push(t);
+            }
+            9 if r.chance(1, 2) => {
+                // an authoritative server hands out an UPWARD referral (its TLD, served by a stranger with
+                // glue): never deeper than the delegation in use, so it must be ignored - the stranger has
+                // an answer ready for whoever follows it
+                let is_auth_answer = matches!(&e.reply, Reply::Msg { m, .. } if m.header.is_authoritative);
+                let q = e.qname.clone();
+                if is_auth_answer && q.labels.len() >= 3 {
+                    let tld = DomainName::from_labels(q.labels[q.labels.len() - 2..].to_vec()).unwrap();
+                    let evil_host = nm("ns.evil.test.");
+                    let evil_ip = Ipv4Addr::new(203, 0, 113, 66);
+                    let qtype = e.qtype;
+                    if let Reply::Msg { m, .. } = &mut e.reply {
+                        m.header.is_authoritative = false;
+                        m.answers.clear();
+                        m.authority = vec![rr(&tld, RecordTypeWithData::NS { nsdname: evil_host.clone() }, 300)];
+                        m.additional = vec![rr(&evil_host, RecordTypeWithData::A { address: evil_ip }, 300)];
+                    }
+                    let qq = Question { name: q.clone(), qtype: QueryType::from(qtype), qclass: QueryClass::Record(RecordClass::IN) };
+                    let mut poisoned = reply_to(&qq);
+                    poisoned.header.is_authoritative = true;
+                    poisoned.answers.push(rr(&q, data_for(r, qtype), 300));
+                    sc.script.push(Entry { addr: IpAddr::V4(evil_ip), tcp: false, qname: q, qtype, delay_ms: 5, reply: Reply::Msg { m: poisoned, same_id: true } });
+                }
+            }
             9 => {
                 // also script the TCP retry with a late answer
                 let mut t = e.clone();
@@ -1150,6 +1367,7 @@ pub fn run(r: &mut Rng, n: usize, which: &str, out: &mut Out) {
                     local_scenario(r)
                 }
             }
+            "universe" if i % 40 == 17 => hoster_scenario(r),
             "universe" => match i % 4 {
                 0 => universe_scenario(r, false, false),
                 1 => universe_scenario(r, true, true),
